@@ -1,2 +1,48 @@
-From SV Require Import Simfile.
-Theorem C02_placeholder : True. Proof. exact I. Qed.
+(* C02 - SSC simfile: serialize then parse gives back the same simfile.  Statements only. *)
+From Coq Require Import List NArith ZArith Bool.
+From SV Require Import Sx Str Omap Msd Simfile Generated.Tables Proofs.MsdFacts Proofs.SmRoundTrip Proofs.SscRoundTrip.
+Import ListNotations.
+Open Scope N_scope.
+
+(* notes_last moves each chart's note data item (NOTES, or NOTES2 when only that is present) to the
+   end and changes nothing else *)
+Theorem C02_roundtrip : forall strict sf, wf_ssc sf -> safe_ssc sf = true ->
+  exists t, ser_ssc sf = Some t /\ load_ssc strict t = LOk (notes_last sf).
+Proof. exact ssc_roundtrip. Qed.
+Print Assumptions C02_roundtrip.
+
+Theorem C02_fixpoint : forall c, wf_chart c -> (exists pre nv, c = pre ++ [(notes_key c, nv)]) -> notes_last_chart c = c.
+Proof. exact notes_last_fixpoint. Qed.
+Print Assumptions C02_fixpoint.
+
+(* no property is ever dropped, renamed or invented - values are data, identity plays no role *)
+Theorem C02_nothing_dropped : forall c k v, wf_chart c ->
+  (List.In (k, v) c <-> List.In (k, v) (notes_last_chart c)).
+Proof. intros c k v H. split; [apply nothing_dropped|apply nothing_invented]; exact H. Qed.
+Print Assumptions C02_nothing_dropped.
+
+(* each chart: NOTEDATA first, its other properties in order, the note data last *)
+Theorem C02_chart_shape : forall c nv,
+  params_of (chunks_chart c nv) =
+  [kNOTEDATA; []] :: map (fun kv => prop_comps (fst kv) (snd kv)) (filter (not_key (notes_key c)) c ++ [(notes_key c, nv)]).
+Proof. exact params_of_chart. Qed.
+Print Assumptions C02_chart_shape.
+
+Theorem C02_serializable : forall sf, (forall c, List.In c (ssc_charts sf) -> wf_chart c) -> exists t, ser_ssc sf = Some t.
+Proof. exact ssc_serializable. Qed.
+Print Assumptions C02_serializable.
+
+Theorem C02_multivalue_unescaped : forall k s, is_multi k = true -> prop_comps k (Some s) = k :: split_on 58 s.
+Proof. exact multivalue_unescaped. Qed.
+
+(* non-vacuity: a chart with NOTES2 in the middle, an empty value equal to the note data, a
+   one-character value equal to another, a key-only property, chart-level DISPLAYBPM *)
+Definition ex_chart : props :=
+  [([77;69;84;69;82], Some [49]); (kNOTES2, Some []); ([88], Some []); ([89], Some [49]); ([90], None);
+   ([68;73;83;80;76;65;89;66;80;77], Some [54;48;58;50;52;48])].
+Definition ex_ssc : sscsimfile := {| ssc_props := [(kVERSION, Some [48;46;56;51]); ([84], Some [58;59])]; ssc_charts := [ex_chart; [(kNOTES, Some [49])]] |}.
+Example C02_example :
+  safe_ssc ex_ssc = true /\
+  match ser_ssc ex_ssc with Some t => load_ssc true t | None => LErrKey end = LOk (notes_last ex_ssc) /\
+  match ser_ssc ex_ssc with Some t => load true None t | None => LErrKey end = LOk (SSC (notes_last ex_ssc)).
+Proof. vm_compute. repeat split; reflexivity. Qed.
